@@ -249,6 +249,8 @@ from . import shared
 RULES = RULES + shared.bundle('C14', ['gate', 'restart', 'driver', 'norm'], ['kernel'])
 from . import folds as _folds
 RULES = RULES + [_folds.fold_rule('C14')]
+from .. import refs as _refs
+RULES = RULES + [_refs.ref_rule('C14')]
 
 
 def run(tier="quick", replay=None):
